@@ -177,6 +177,7 @@ def run_paths(contract, registry=None, concrete_args=None, max_paths=4000, timeo
   work = [[]]
   seen_presets = set()
   obligations, unsupported, assumed = [], [], set()
+  covers = {}
   npaths = 0
   while work:
     preset = work.pop()
@@ -202,6 +203,7 @@ def run_paths(contract, registry=None, concrete_args=None, max_paths=4000, timeo
           ctx.assume(ax)
       for name, clause in contract.requires.items():
         ctx.assume(ip._bt(ip.eval_spec(clause, dict(ip.old_env))))
+      covers.setdefault("%s.precondition" % contract.prefix, []).append(list(ctx.assumptions))
       fr = _function_frame(ip, contract, fv, args)
       if contract.closure_env is not None:      # names the function reads from enclosing scopes
         for k, v in contract.closure_env(args).items():
@@ -212,10 +214,14 @@ def run_paths(contract, registry=None, concrete_args=None, max_paths=4000, timeo
         body = node.body if contract.body_slice is None else contract.body_slice(node)
         if body is None:
           raise Unsupported("structural slice selector no longer matches the function")
+        from .interp import _is_generator
+        is_gen = _is_generator(node)
+        if is_gen: fr.env["__yielded__"] = []
         try:
           ip.exec_block(body, fr)
         except _Return as r:
           result = r.value
+        if is_gen: result = fr.env["__yielded__"]
       except PyExc as e:
         exc = e
       if exc is None:
@@ -248,8 +254,11 @@ def run_paths(contract, registry=None, concrete_args=None, max_paths=4000, timeo
     for ob in ctx.obligations:
       if ob.witness_env is None: ob.witness_env = dict(args)
     obligations.extend(ctx.obligations)
+    for name, assm in ctx.covers:
+      covers.setdefault(name, []).append(assm)
     assumed |= ctx.assumed_contracts
     work.extend(ctx.pending)
+  run_paths.last_covers = covers
   return obligations, unsupported, npaths, assumed
 
 
@@ -428,10 +437,11 @@ def verify_contract(contract, registry=None, timeout_ms=10000):
       rp = replay(contract, ob, res.model)
     elif res.status == "sat":
       rp = {"obligation": ob.name, "replayed": False, "why": res.detail}
-    if res.status == "unsat" and ob.decisions not in vac_checked:
-      vac_checked.add(ob.decisions)
-      if solve.satisfiable(ob.assumptions, 120) == "unsat":
-        run.vacuous.append(ob.name)
     run.results.append(ObResult(ob, res, rp))
+  # vacuity guard: the precondition, and each loop's "invariant and guard", must be satisfiable
+  # on at least one path (a cover query); `unknown` counts as reachable.
+  for name, alts in getattr(run_paths, "last_covers", {}).items():
+    if all(solve.satisfiable(a, 300) == "unsat" for a in alts[:6]):
+      run.vacuous.append(name)
   run.time_s = time.time() - t0
   return run
